@@ -148,7 +148,7 @@ def dense_of(template, tensors, coeff=1):
         x._mp[i] = None
         x[i] = t
     x.coeff = coeff
-    return S.dense(x)
+    return flat(S.dense(x))
 
 
 def frame(template, snap, kind, pos, two_site, local_shape, sym=True):
@@ -173,14 +173,15 @@ def place(T, kind, pos, two_site, loc, sym=True):
     else:
         if kind == "F":
             i, j = pos
-            # a two-site tensor (l, s1, s2, r): split exactly through an auxiliary bond that enumerates (s2, r)
-            l, s1, s2, r = loc.shape
-            eye = np.empty((s2 * r, s2, r), dtype=object if sym else complex)
+            # a two-site tensor (l, phys_i..., phys_j..., r): split exactly through an auxiliary bond that enumerates (phys_j..., r)
+            ki = T[i].ndim - 2
+            left, right = tuple(loc.shape[: 1 + ki]), tuple(loc.shape[1 + ki:])
+            F = int(np.prod(right))
+            eye = np.empty((F,) + right, dtype=object if sym else complex)
             eye.fill(Poly() if sym else 0.0)
-            for a in range(s2):
-                for b in range(r):
-                    eye[a * r + b, a, b] = Poly.const(1) if sym else 1.0
-            T[i], T[j] = loc.reshape(l, s1, s2 * r), eye
+            for flat_i, multi in enumerate(np.ndindex(*right)):
+                eye[(flat_i,) + multi] = Poly.const(1) if sym else 1.0
+            T[i], T[j] = loc.reshape(left + (F,)), eye
         else:
             T[pos] = loc
     return T
@@ -220,6 +221,19 @@ def execute(x, Hobj, dt, method, solver, rec):
         mps_mod.expm_krylov, mps_mod.solve_ivp, mps_mod.Environ = saved
 
 
+def apply_h(Hd, J):
+    """H J for frames of states (columns are vectors) and of density operators (columns are flattened D x D matrices; H acts on the physical index)"""
+    D = Hd.shape[0]
+    if J.shape[0] == D:
+        return Hd.dot(J)
+    J3 = J.reshape(D, D, J.shape[1])
+    return np.tensordot(Hd, J3, axes=(1, 0)).reshape(D * D, J.shape[1])
+
+
+def flat(x):
+    return np.asarray(x).reshape(-1)
+
+
 def clauses(rec, sched, template, Hd, va, result, dt, two_site, sym):
     """yields (clause, call tag, lhs, rhs, message-if-structural-failure) in the order of the local problems"""
     cj = conj_arr if sym else np.conj
@@ -241,7 +255,7 @@ def clauses(rec, sched, template, Hd, va, result, dt, two_site, sym):
             yield ("start_vector", ctag, 0, 1, f"local problem {k} ({len(c['v'])} unknowns) does not fit the integrator's problem {kind}{pos} (shape {shp}) in the state held at that moment")
             complete = False
             break
-        ref = cj(J).T.dot(Hd.dot(J))
+        ref = cj(J).T.dot(apply_h(Hd, J))
         if not sym:
             yield ("frames_are_orthonormal", ctag, cj(J).T.dot(J), np.eye(J.shape[1]) * abs(c["snap"]["coeff"]) ** 2, None)
         want_t = complex(0, -1) * dt / 2 if kind == "F" else complex(0, 1) * dt / 2      # dt = -i tau in imaginary time
@@ -249,7 +263,7 @@ def clauses(rec, sched, template, Hd, va, result, dt, two_site, sym):
         yield ("posed_in_the_state_the_previous_problem_produced", ctag, J.dot(c["v"]), prev_after, None)
         prev_after = J.dot(c["y"])
     if complete and len(rec.calls) == len(sched):
-        yield ("result_is_the_state_of_the_last_local_problem", "", S.dense(result), prev_after, None)
+        yield ("result_is_the_state_of_the_last_local_problem", "", flat(S.dense(result)), prev_after, None)
 
 
 def native_replay(t0, H, dt, method, solver, two_site, rng_seed):
@@ -259,7 +273,7 @@ def native_replay(t0, H, dt, method, solver, two_site, rng_seed):
         rng = np.random.default_rng(rng_seed)
         atc = S.complexify(t0, rng)
         atc.canonicalise().canonicalise()       # the schemes expect a canonical state with the centre at the start of the sweep (two sweeps: same direction again)
-        Hn, va = S.dense(H), S.dense(atc)
+        Hn, va = S.dense(H), flat(S.dense(atc))
         rec = Recorder(None, real_kernels=(mps_mod.expm_krylov, mps_mod.solve_ivp))
         x = atc.copy()
         try:
@@ -281,7 +295,7 @@ def native_replay(t0, H, dt, method, solver, two_site, rng_seed):
     return go
 
 
-def prove(run, key="C09", dts=(0.25, complex(0, -0.25))):
+def prove(run, key="C09", dts=(0.25, complex(0, -0.25)), density_operators=True):
     from renormalizer.mps import Mpo
     shapes = [("spinqn", 3), ("holstein", 3)] if run.tier == "quick" else [("spinqn", 3), ("spinqn", 4), ("holstein", 3), ("spin2qn", 3), ("spin", 3), ("spinqn", 2), ("spin", 1)]
     ncase = ncalls = 0
@@ -301,6 +315,9 @@ def prove(run, key="C09", dts=(0.25, complex(0, -0.25))):
         p0 = U.make_state(model, q, 1, rng)        # product state: every interior bond has dimension one (1x1 bond problems)
         if p0 is not None:
             starts.append(("product state", p0))
+        if density_operators and name == "spinqn" and (n <= 3 or run.tier != "quick"):      # (the dense space of a density operator is the square of the state's)
+            from renormalizer.mps import MpDm
+            starts.append(("density operator", MpDm.from_mps(a0)))      # four-index site tensors: H acts on the physical index, the ancilla is a spectator
         for sname, t0 in starts:
             for method, two_site in (("tdvp_ps", False), ("tdvp_ps2", True)):
                 if two_site and n < 2:
@@ -318,7 +335,7 @@ def prove(run, key="C09", dts=(0.25, complex(0, -0.25))):
                         replay = native_replay(t0, H, dt, method, solver, two_site, [run.seed, n, 17])
                         with SH.kernel_stub_mode():
                             Hs = SH.numeric_to_symbolic_const(H)
-                            Hd, va = S.dense(Hs), S.dense(a)
+                            Hd, va = S.dense(Hs), flat(S.dense(a))
                             try:
                                 r = execute(a.copy(), Hs, dt, method, solver, rec)
                             except Exception as e:
@@ -332,7 +349,7 @@ def prove(run, key="C09", dts=(0.25, complex(0, -0.25))):
                                     decide_true(run, oid, fn, lhs == rhs, msg, case, fields={"method": method}, numeric_replay=replay)
                                 else:
                                     decide(run, oid, fn, lhs, rhs, case, fields={"method": method}, numeric_replay=replay)
-                            decide(run, f"frame:{fn}:input[{tag}]", fn, S.dense(a), va, case)
+                            decide(run, f"frame:{fn}:input[{tag}]", fn, flat(S.dense(a)), va, case)
                             bad = S.qnv_violations(r)
                             decide_true(run, f"post:{fn}:qn_valid[{tag}]", fn, not bad, f"labels of the result invalid: {bad[:2]}", case)
                         native_pass(run, f"rtc:{fn}:local_problems_with_the_real_kernels_incl_orthonormal_frames", fn, replay, (tag,), case)
